@@ -120,6 +120,28 @@ type H010 struct {
 	MO map[string]*int64 `parquet:"mo,optional"`
 }
 
+// shapes SchemaOf accepts that no documented tag describes: a pointer to a pointer, a slice of
+// pointers without the list tag. What the ingestion paths do with them is recorded as an
+// observation (they are not "Go struct types expressible with the documented tags").
+type H012 struct {
+	P **int32 `parquet:"p"`
+}
+
+type H013 struct {
+	M []*int32 `parquet:"m"`
+}
+
+// OddCatalog: undocumented shapes (observations only).
+var OddCatalog []*Entry
+
+func init() {
+	for _, e := range []*Entry{entryOf[H012]("H012"), entryOf[H013]("H013")} {
+		if e != nil {
+			OddCatalog = append(OddCatalog, e)
+		}
+	}
+}
+
 // ExtCatalog: the round-3 types (also members of Catalog unless noted).
 var ExtCatalog []*Entry
 
